@@ -3,7 +3,7 @@
 # suite, and that its demonstration fails with the change and passes without it.  Then copy it to /verif/seeded/<ID>/.
 ID=$1
 WT=/tmp/seed/wt-$ID
-OUT=/tmp/seed/out/$ID
+OUT=${SEEDOUT:-/tmp/seed/out}/$ID
 export GOFLAGS= GOPROXY=off GOSUMDB=off GOTOOLCHAIN=local
 cd $WT || exit 2
 git stash -q 2>/dev/null; git checkout -q -- . ; git stash drop -q 2>/dev/null
